@@ -26,6 +26,7 @@ class DType:
         self.template_id = None
         self.handle = None
         self.capacity = None       # string types
+        self.overlapped = False    # BOOL members alias bits of visible members (module-defined types)
         self._desc = None
 
     @property
@@ -595,3 +596,97 @@ def redefine_type(prj, rng):
             tag.data = bytearray(t.size * tag.elements)
     randomize_memory(prj, rng)
     return t
+
+
+# -------------------------------------------------------------------------------------------------------------------------
+# a real controller's layouts: rebuilt from the repository's tests/offline/all_tags.json (a tags_json dump)
+# -------------------------------------------------------------------------------------------------------------------------
+def load_fixture(path, rng, fw=32):
+    """Project with the tag list and template layouts of the real controller the fixture was dumped from (module-defined
+    types whose BOOL members alias bits of visible members, predefined CONTROL, nested UDTs, STRING/STRING20/STRING480,
+    1-3 dim arrays, BOOL arrays, program-scoped tags).  Memory is randomised; template ids of nested types are assigned."""
+    import json
+    with open(path) as fh:
+        dump = json.load(fh)
+    prj = Project()
+    prj.fw_major = fw
+    prj.name = "pycomm3_demo"
+    used = {"template": set(), "handle": set(), "instance": set()}
+    known_ids = {}
+    for t in dump.values():
+        if t.get("tag_type") == "struct" and "template_instance_id" in t:
+            known_ids[t["data_type"]["name"]] = t["template_instance_id"]
+
+    def build(dt):
+        name = dt["name"]
+        if name in prj.types:
+            return prj.types[name]
+        t = DType(name, "string" if dt.get("string") else "struct")
+        t.size = dt["template"]["structure_size"]
+        if t.kind == "string":
+            t.capacity = dt["string"]
+        for mname, m in dt["internal_tags"].items():
+            if m["data_type_name"] == "BOOL" and "bit" in m:
+                t.members.append(Member(mname, ATOM_TYPES["BOOL"], m["offset"], bit=m["bit"]))
+            elif m["tag_type"] == "atomic":
+                t.members.append(Member(mname, ATOM_TYPES[m["data_type_name"]], m["offset"], array_len=m.get("array") or 0))
+            else:
+                t.members.append(Member(mname, build(m["data_type"]), m["offset"], array_len=m.get("array") or 0))
+        tid = known_ids.get(name)
+        if tid is None or tid in used["template"] or tid >= 0xF00 or tid < 0x100:
+            while True:
+                tid = rng.randrange(0x100, 0xF00)
+                if tid not in used["template"] and tid not in known_ids.values():
+                    break
+        used["template"].add(tid)
+        h = dt["template"]["structure_handle"]
+        while h in used["handle"]:
+            h = rng.randrange(1, 0x10000)
+        used["handle"].add(h)
+        t.template_id, t.handle = tid, h
+        # BOOL members whose host byte lies inside a visible non-BOOL member (module-defined types)
+        spans = [(m.offset, m.offset + m.nbytes()) for m in t.members if not m.is_bit and not m.name.startswith(HIDDEN_PREFIXES)]
+        t.overlapped = any(any(lo <= m.offset < hi for lo, hi in spans) for m in t.members if m.is_bit)
+        prj.types[name] = t
+        prj.by_template[tid] = t
+        return t
+
+    acc = {"Read/Write": 0, "Read Only": 2, "None": 3}
+    for full, t in dump.items():
+        program, name = None, full
+        if full.startswith("Program:"):
+            program, name = full[len("Program:"):].split(".", 1)
+        dt = build(t["data_type"]) if t["tag_type"] == "struct" else ATOM_TYPES[t["data_type_name"]]
+        dims = tuple(t["dimensions"][: t["dim"]])
+        iid = t["instance_id"]
+        while iid in used["instance"]:
+            iid += 1
+        used["instance"].add(iid)
+        kind = "module" if (":" in name) else ("alias" if t.get("alias") else "user")
+        tag = Tag(name, dt, dims, instance_id=iid, program=program, alias=bool(t.get("alias")), access=acc.get(t.get("external_access"), 0), kind=kind)
+        tag.attr3, tag.attr5 = t.get("symbol_address", 0), t.get("symbol_object_address", 0)
+        tag.attr6 = (t.get("software_control", 0) | BASE_TAG_BIT) if not tag.alias else (t.get("software_control", 0) & ~BASE_TAG_BIT)
+        tag.data = bytearray(dt.size * tag.elements)
+        if program:
+            p = prj.programs.setdefault(program, {"instance_id": None, "routines": ["MainRoutine"], "symbols": []})
+            p["symbols"].append(tag)
+        else:
+            prj.symbols.append(tag)
+    for pn, p in prj.programs.items():
+        while True:
+            iid = rng.randrange(256, 65536)
+            if iid not in used["instance"]:
+                used["instance"].add(iid)
+                break
+        p["instance_id"] = iid
+        rt_ = Tag("Routine:MainRoutine", ATOM_TYPES["DINT"], (), instance_id=max(used["instance"]) + 1, program=pn, kind="routine")
+        used["instance"].add(rt_.instance_id)
+        p["symbols"].append(rt_)
+        p["symbols"].sort(key=lambda x: x.instance_id)
+        prj.symbols.append(Tag("Program:" + pn, ATOM_TYPES["DINT"], (), instance_id=iid, kind="program"))
+    ts = Tag("Task:MainTask", ATOM_TYPES["DINT"], (), instance_id=max(used["instance"]) + 7, kind="task")
+    prj.tasks["MainTask"] = ts.instance_id
+    prj.symbols.append(ts)
+    prj.symbols.sort(key=lambda x: x.instance_id)
+    randomize_memory(prj, rng)
+    return prj
